@@ -233,12 +233,16 @@ func (w *worker) stop() {
 }
 
 type jobDeath struct {
+	memory  bool
 	timeout bool
 	stderr  string
 	exit    int
 }
 
 func (d *jobDeath) Error() string {
+	if d.memory {
+		return "worker grew beyond the memory limit (runaway allocation) and was killed"
+	}
 	if d.timeout {
 		return "worker produced no result within the wall-clock limit (possible CPU wedge)"
 	}
@@ -260,7 +264,17 @@ func (w *worker) run(job *Job, limit time.Duration) (*Result, error) {
 		w.cmd.Wait()
 		return nil, &jobDeath{stderr: w.stderr.String(), exit: w.exitCode()}
 	}
+	stopWatch := make(chan struct{})
+	memKilled := make(chan struct{}, 1)
+	go w.watchMemory(stopWatch, memKilled)
 	line, err := w.readLine(limit)
+	close(stopWatch)
+	select {
+	case <-memKilled:
+		w.cmd.Wait()
+		return nil, &jobDeath{memory: true, stderr: w.stderr.String()}
+	default:
+	}
 	if err == errTimeout {
 		return nil, &jobDeath{timeout: true, stderr: w.stderr.String()}
 	}
@@ -361,4 +375,39 @@ func runGroups(bin string, groups []*Group, nproc int, race bool, limit time.Dur
 	}
 	wg.Wait()
 	return firstErr
+}
+
+const workerRSSLimitKB = 3 << 20 // 3 GiB per worker (16 workers on a 62 GiB machine)
+
+// watchMemory kills the worker if its resident set exceeds the limit (the sandbox has no
+// memory limit of its own; a runaway recursion in the system under test must not take the
+// machine down).
+func (w *worker) watchMemory(stop <-chan struct{}, killed chan<- struct{}) {
+	tick := time.NewTicker(500 * time.Millisecond)
+	defer tick.Stop()
+	for {
+		select {
+		case <-stop:
+			return
+		case <-tick.C:
+			if w.cmd.Process == nil {
+				continue
+			}
+			data, err := os.ReadFile(fmt.Sprintf("/proc/%d/status", w.cmd.Process.Pid))
+			if err != nil {
+				continue
+			}
+			for _, l := range strings.Split(string(data), "\n") {
+				if strings.HasPrefix(l, "VmRSS:") {
+					var kb int
+					fmt.Sscanf(strings.TrimPrefix(l, "VmRSS:"), "%d", &kb)
+					if kb > workerRSSLimitKB {
+						w.cmd.Process.Kill()
+						killed <- struct{}{}
+						return
+					}
+				}
+			}
+		}
+	}
 }
